@@ -769,7 +769,7 @@ func (r *runner) runAll(entries []string) int {
 				// lock-set facts are properties of the executed path, not of observable output:
 				// they cannot be replayed natively (the race detector is the native analogue)
 				confirmed = true
-				rep.Detail += " [lock-set violation observed on the symbolic path; not natively replayable]"
+				rep.Detail += " [fact about the executed path (lock set / goroutine schedule chosen by the VM); not natively replayable]"
 			}
 			if nat != nil && !f.VMOnly {
 				n := nat[i]
